@@ -414,34 +414,47 @@ theorem sndOk_cts (b : Snd) (nxt w : Int) (d : Nat) (h : SndOk b) (hd : d ≠ 0)
   exact ⟨hd, h.sess, fun hh => by rcases hh with hh | hh; exact absurd hh n1; exact absurd hh n2,
    h.data1, h.segs, fun _ => ⟨rfl, hn⟩, fun hh => absurd hh n1⟩
 
+theorem processCm_wf (cfg : Cfg) (s : St) (now : Nat) (mid : MessageId) (dest : Nat) (data : List Nat)
+    (hnow : 0 < now) (hwf : WF s) : WF (processCm cfg s now mid dest data).st := by
+  have T1 : 0 < Const.T22.T1 := by decide
+  have T2 : 0 < Const.T22.T2 := by decide
+  have Th : 0 < Const.T22.Th := by decide
+  unfold processCm
+  dsimp only
+  split
+  · exact hwf
+  · split
+    · exact hwf
+    · (repeat' split) <;> try exact hwf
+      all_goals first
+        | (apply wf_set_rcv _ _ _ hwf; show _ ≠ 0; simp only; omega)
+        | exact wf_erase_rcv _ _ hwf
+        | (apply wf_set_snd _ _ _ hwf; apply sndOk_deadline _ _ (hwf.snd _ _ (by assumption)); omega)
+        | (apply wf_set_snd _ _ _ hwf; apply sndOk_cts _ _ _ _ (hwf.snd _ _ (by assumption)) (by omega); omega)
+        | (apply wf_set_snd _ _ _ hwf; apply sndOk_state _ _ _ (hwf.snd _ _ (by assumption)) (by omega) <;> decide)
+
+theorem processDt_wf (s : St) (now : Nat) (mid : MessageId) (dest : Nat) (data : List Nat)
+    (hnow : 0 < now) (hwf : WF s) : WF (processDt s now mid dest data).st := by
+  have T1 : 0 < Const.T22.T1 := by decide
+  have T2 : 0 < Const.T22.T2 := by decide
+  unfold processDt
+  dsimp only
+  (repeat' split) <;> try exact hwf
+  all_goals first
+    | (apply wf_set_rcv _ _ _ hwf; show _ ≠ 0; simp only; omega)
+    | (apply wf_set_rcv _ _ _ hwf; show _ ≠ 0; simp only; exact hwf.rcv _ _ (by assumption))
+    | (dsimp only; apply wf_set_rcv _ _ _ hwf; show _ ≠ 0; simp only; exact hwf.rcv _ _ (by assumption))
+
 /-- EVERY received frame — any identifier, any payload, accepted or not, whether or not the handler raises — keeps the
     J1939-22 tables well-formed -/
 theorem notify_wf (cfg : Cfg) (s : St) (now : Nat) (acc : Nat → Bool) (canId : Nat) (data : List Nat)
     (hnow : 0 < now) (hwf : WF s) : WF (notify cfg s now acc canId data).st := by
-  have T1 : 0 < Const.T22.T1 := by decide
-  have T2 : 0 < Const.T22.T2 := by decide
-  have Th : 0 < Const.T22.Th := by decide
   unfold notify
   dsimp only
-  (repeat' split) <;> try exact hwf
-  · -- FD.TP.CM
-    unfold processCm
-    dsimp only
-    (repeat' split) <;> try exact hwf
-    all_goals first
-      | (apply wf_set_rcv _ _ _ hwf; show _ ≠ 0; simp only; omega)
-      | exact wf_erase_rcv _ _ hwf
-      | (apply wf_set_snd _ _ _ hwf; apply sndOk_deadline _ _ (hwf.snd _ _ (by assumption)); omega)
-      | (apply wf_set_snd _ _ _ hwf; apply sndOk_cts _ _ _ _ (hwf.snd _ _ (by assumption)) (by omega); omega)
-      | (apply wf_set_snd _ _ _ hwf; apply sndOk_state _ _ _ (hwf.snd _ _ (by assumption)) (by omega) <;> decide)
-  · -- FD.TP.DT
-    unfold processDt
-    dsimp only
-    (repeat' split) <;> try exact hwf
-    all_goals first
-      | (apply wf_set_rcv _ _ _ hwf; show _ ≠ 0; simp only; omega)
-      | (apply wf_set_rcv _ _ _ hwf; show _ ≠ 0; simp only; exact hwf.rcv _ _ (by assumption))
-      | (dsimp only; apply wf_set_rcv _ _ _ hwf; show _ ≠ 0; simp only; exact hwf.rcv _ _ (by assumption))
+  (repeat' split) <;> first
+    | exact hwf
+    | exact processCm_wf _ _ _ _ _ _ hnow hwf
+    | exact processDt_wf _ _ _ _ _ hnow hwf
 
 
 theorem mpgPlace_keys (now deadline ff src dst : Nat) (cpg : Cpg) (fuel session : Nat) (m : PyDict MpgBuf) (o : List Out)
